@@ -1006,6 +1006,9 @@ class MetricFrame:
         else:
             # Need to specify dtype to avoid inadvertent type conversions
             f_arr = np.squeeze(np.asarray(features, dtype=object))
+            if f_arr.ndim == 0:
+                # a single row: keep the feature one-dimensional
+                f_arr = np.atleast_1d(f_arr)
             if len(f_arr.shape) == 1:
                 check_consistent_length(f_arr, sample_array)
                 result.append(GroupFeature(base_name, f_arr, 0, None))
